@@ -277,7 +277,8 @@ ProdFails(e) ==
       ELSE (IF \E i \in 1..Len(e.dtypes) : e.dtypes[i] # want THEN {"prod_dtype"} ELSE {})
       \cup (IF ~ProdShapeOk(e.kind, L, e.shapes) THEN {"prod_shape"} ELSE {})
       \cup (IF \E i \in 1..Len(e.cells) : ~ProdCellOk(f, e.kind, A, L, e.cells[i]) THEN {"prod_cell"} ELSE {})
-      \cup (IF e.whole /\ Cardinality({ProdPos(e.kind, e.cells[i]) : i \in 1..Len(e.cells)}) # ProdTotal(e.kind, L)
+      \cup (IF e.whole /\ ProdShapeOk(e.kind, L, e.shapes)      \* (a wrong shape is the code's failure, reported above)
+               /\ Cardinality({ProdPos(e.kind, e.cells[i]) : i \in 1..Len(e.cells)}) # ProdTotal(e.kind, L)
             THEN {"binding:prod_coverage"} ELSE {})
 
 (*************************** transcription *********************************)
